@@ -95,6 +95,8 @@ def classify(descr: str) -> Tuple[str, str]:
     m = re.match(r"Unknown field '([^']*)'", descr)
     if m:
         return "U", m.group(1)
+    if descr.startswith("bad docstring: unbalanced parenthesis in type expression"):
+        return "W", ""          # warning of a type field (--process-types)
     if descr.startswith("bad docstring: "):
         return "E", ""
     return "O", descr.split(":")[0][:30]
@@ -106,8 +108,9 @@ WORDS = ["alpha", "beta", "gamma", "delta", "words", "more", "text", "here", "va
 
 
 class Names:
-    def __init__(self) -> None:
+    def __init__(self, ptypes: bool = False) -> None:
         self.n = 0
+        self.ptypes = ptypes        # the module is run with --process-types: plant type-field warnings
 
     def new(self, p: str = "zq") -> str:
         self.n += 1
@@ -197,6 +200,10 @@ def gen_blocks(rng, fmt: str, owner: str, names: Names, raw: bool, opening: bool
                 cons.append((cls, j, nm))
             lines = [head + body[0]] + ["    " + l for l in body[1:]]
             blocks.append({"lines": lines, "constructs": cons, "kind": "field"})
+        if names.ptypes and owner in ("function", "method") and rng.random() < 0.8:
+            # `(zqN`: warning "unbalanced parenthesis in type expression" + an unresolvable name, both on the field's line
+            nm = names.new()
+            blocks.append({"lines": [f"{at}type a{colon} ({nm}"], "constructs": [("W", 0, ""), ("X", 0, nm)], "kind": "field"})
         if fmt == "r" and rng.random() < 0.4:
             blocks.append(consolidated_block(rng, owner, names, raw, density))
     elif can_param and rng.random() < 0.8:
@@ -325,9 +332,11 @@ def layout_cells() -> List[Tuple[bool, int, bool]]:
     return cells
 
 
-def gen_module(rng, fmt: str, plan: List[Tuple[str, Tuple[bool, int, bool], int]]) -> Dict[str, Any]:
-    """plan: list of (owner kind, layout cell, depth 0-2) to realise in this module"""
-    names = Names()
+def gen_module(rng, fmt: str, plan: List[Any], ptypes: bool = False) -> Dict[str, Any]:
+    """plan: list of (owner kind, layout cell, depth 0-2[, override]) to realise in this module; override =
+    {'layout': partial layout, 'blocks': explicit blocks} pins what would otherwise be drawn (corpus cases)"""
+    names = Names(ptypes)
+    plan = [tuple(p) + (None,) if len(p) == 3 else tuple(p) for p in plan]
     lines: List[str] = []
     docs: List[Dict[str, Any]] = []
     counter = itertools.count()
@@ -336,9 +345,12 @@ def gen_module(rng, fmt: str, plan: List[Tuple[str, Tuple[bool, int, bool], int]
         for _ in range(rng.choice([0, 0, 1, 2])):
             lines.append(rng.choice(["", " " * ind + "# comment", " " * ind + "pass"]))
 
-    def add_doc(owner: str, cell, ind: int, fullname: str) -> None:
+    def add_doc(owner: str, cell, ind: int, fullname: str, override=None) -> None:
         layout = gen_layout(rng, cell)
         blocks = gen_blocks(rng, fmt, owner, names, layout["raw"], layout["opening"])
+        if override:
+            layout.update(override.get("layout", {}))
+            blocks = override.get("blocks", blocks)
         doc = {"fmt": fmt, "owner": owner, "layout": layout, "blocks": blocks, "name": fullname, "ind": ind}
         src, value, starts = build_literal(doc, ind)
         doc["str_lineno"] = len(lines) + 1          # before the vertical offset
@@ -350,9 +362,9 @@ def gen_module(rng, fmt: str, plan: List[Tuple[str, Tuple[bool, int, bool], int]
     # a module docstring must come first
     mods = [p for p in plan if p[0] == "module"]
     if mods:
-        add_doc("module", mods[0][1], 0, "m")
+        add_doc("module", mods[0][1], 0, "m", mods[0][3])
     lines.append("import os")
-    for owner, cell, depth in plan:
+    for owner, cell, depth, override in plan:
         if owner == "module":
             continue
         i = next(counter)
@@ -370,21 +382,21 @@ def gen_module(rng, fmt: str, plan: List[Tuple[str, Tuple[bool, int, bool], int]
         filler(ind)
         if owner == "class":
             lines.append(" " * ind + f"class C{i}:")
-            add_doc("class", cell, ind + 4, f"{prefix}.C{i}")
+            add_doc("class", cell, ind + 4, f"{prefix}.C{i}", override)
             lines.append(" " * (ind + 4) + "def __init__(self, a=1):")
             lines.append(" " * (ind + 8) + "pass")
         elif owner == "function":
             if rng.random() < 0.3:
                 lines.append(" " * ind + "@staticmethod" if ind else " " * ind + "@os.path.expanduser")
             lines.append(" " * ind + f"def f{i}(a, *args, **kw):")
-            add_doc("function", cell, ind + 4, f"{prefix}.f{i}")
+            add_doc("function", cell, ind + 4, f"{prefix}.f{i}", override)
             lines.append(" " * (ind + 4) + "return a")
         elif owner == "method":
             lines.append(" " * ind + f"class K{i}:")
             lines.append(" " * (ind + 4) + "k = 0")
             filler(ind + 4)
             lines.append(" " * (ind + 4) + f"def m{i}(self, a, b=2):")
-            add_doc("method", cell, ind + 8, f"{prefix}.K{i}.m{i}")
+            add_doc("method", cell, ind + 8, f"{prefix}.K{i}.m{i}", override)
             lines.append(" " * (ind + 8) + "return b")
         else:  # attribute
             flavour = rng.choice(["var", "ann", "inst"])
@@ -392,12 +404,12 @@ def gen_module(rng, fmt: str, plan: List[Tuple[str, Tuple[bool, int, bool], int]
                 lines.append(" " * ind + f"class A{i}:")
                 lines.append(" " * (ind + 4) + "def __init__(self):")
                 lines.append(" " * (ind + 8) + f"self.v{i} = 1")
-                add_doc("attribute", cell, ind + 8, f"{prefix}.A{i}.v{i}")
+                add_doc("attribute", cell, ind + 8, f"{prefix}.A{i}.v{i}", override)
             else:
                 lines.append(" " * ind + (f"v{i} = 1" if flavour == "var" else f"v{i}: int = 1"))
-                add_doc("attribute", cell, ind, f"{prefix}.v{i}")
+                add_doc("attribute", cell, ind, f"{prefix}.v{i}", override)
         filler(0)
-    return {"fmt": fmt, "lines": lines, "docs": docs}
+    return {"fmt": fmt, "lines": lines, "docs": docs, "extra_args": ["--process-types"] if ptypes else []}
 
 
 def realise(mod: Dict[str, Any], offset: int) -> str:
@@ -577,6 +589,9 @@ def run(ctx: Ctx) -> None:
     stream_tables(ctx)
     stream_report_api(ctx)
     stream_sys_api(ctx)
+    stream_literal_source(ctx)
+    stream_get_lineno_api(ctx)
+    stream_napoleon_map(ctx)
 
     # ---- plan: every (owner, layout cell, depth, fmt) at least once
     cells = layout_cells()
@@ -606,6 +621,14 @@ def run(ctx: Ctx) -> None:
                 plan.append(p)
             if plan:
                 mods.append(gen_module(rng, f, plan))
+    # type-field warnings need --process-types: a few modules of their own
+    for i in range(40 if ctx.quick else 400):
+        plan = [(rng.choice(["function", "method"]), rng.choice(cells), rng.randrange(2)) for _ in range(rng.randint(1, 3))]
+        mods.append(gen_module(rng, "er"[i % 2], plan, ptypes=True))
+    # deterministic corpus first: past findings and the shapes the seeded changes need (never depends on the seed)
+    corpus = corpus_modules()
+    mods = corpus + mods
+    ctx.extra["corpus_modules"] = len(corpus)
     ctx.extra["grid_cells"] = len(FMTS) * len(OWNERS) * len(cells) * 3
     ctx.extra["modules"] = len(mods)
 
@@ -619,7 +642,7 @@ def run(ctx: Ctx) -> None:
             src = realise(mod, off)
             # the generator's idea of value / line must be CPython's
             check_against_ast(ctx, mod, src, off)
-            jobs.append((src, mod["fmt"], wae, names))
+            jobs.append((src, mod["fmt"], wae, names, mod.get("extra_args", [])))
             meta.append((mi, off, wae))
     inh_pk, inh_jobs = inherited_jobs(ctx)
     rex_pk, rex_jobs = reexport_jobs(ctx)
@@ -632,6 +655,7 @@ def run(ctx: Ctx) -> None:
     ar_req, ar_impl, ar_pay = [], [], []
     rg_req, rg_impl, rg_pay = [], [], []
     sys_req, sys_impl, sys_pay = [], [], []
+    pc_req, pc_impl, pc_pay = [], [], []
     by_mod: Dict[int, List[Tuple[int, bool, Dict[str, Any]]]] = {}
     for (mi, off, wae), res in zip(meta, results):
         mod = mods[mi]
@@ -639,6 +663,11 @@ def run(ctx: Ctx) -> None:
         src = realise(mod, off)
         by_mod.setdefault(mi, []).append((off, wae, res))
         inp = {"source": src, "docformat": FMTS[fmt], "warnings_as_errors": wae}
+        if mod.get("extra_args"):
+            inp["extra_args"] = mod["extra_args"]
+            ctx.count("runs:" + " ".join(mod["extra_args"]))
+        if mod.get("corpus"):
+            ctx.count("corpus:" + mod["corpus"])
         ctx.count("runs")
         ctx.count("fmt:" + FMTS[fmt])
         if not isinstance(res["rc"], int):
@@ -699,6 +728,10 @@ def run(ctx: Ctx) -> None:
                 doc_impl.append("dl=%d n=%d | %s" % (o["dl"], ncl, " ".join(sorted("%s:%s" % (l, k) for l, k, _ in uniq))))
                 doc_pay.append({**inp, "object": doc["name"], "planted": exp})
                 oracle_er(ctx, inp, fmt, doc, exp, uniq, span)
+                if off == 0 and o["doc"]:
+                    pc_req.append("lineno parser %s %s %s" % (fmt, enc(doc["value"]), cons_tokens(doc)))
+                    pc_impl.append(parser_numbers(fmt, o["doc"], doc))
+                    pc_pay.append({"docformat": FMTS[fmt], "cleaned_docstring": o["doc"], "planted": exp})
             else:
                 for e in mine:
                     rg_req.append("lineno inrange %d %s %d %d %s %d" % (sl, enc(doc["value"]), o["ismod"], o["ln"], sec_letter(e["rsec"]), e["off"]))
@@ -745,6 +778,79 @@ def run(ctx: Ctx) -> None:
     ctx.compare("report-arith", ar_req, ar_impl, ar_pay)
     ctx.compare("converted-range", rg_req, rg_impl, rg_pay)
     ctx.compare("msg-main", sys_req, sys_impl, sys_pay)
+    ctx.compare("parser-contract", pc_req, pc_impl, pc_pay)
+
+
+def parser_numbers(fmt: str, cleaned: str, doc: Dict[str, Any]) -> str:
+    """what the real parser stores: `Field.lineno` of the fields that carry a planted field-level problem and
+    `ParseError._linenum` of every error - the contract `Lineno.constructOffset` assumes, observed at the parser itself"""
+    from pydoctor.epydoc.markup import epytext, restructuredtext, ParseError
+    errs: List[Any] = []
+    fields: List[Any] = []
+    try:
+        parsed = (epytext if fmt == "e" else restructuredtext).parse_docstring(cleaned, errs)
+        fields = list(parsed.fields)
+    except ParseError:
+        pass            # epytext: a fatal error; it is in errs
+    names = {nm for cls, raw, j, nm in cons_of(doc) if cls in ("U", "P", "B", "D")}
+    fl = sorted({str(f.lineno) for f in fields if f.tag() in names or (f.arg() in names and f.tag() != "type")})
+    el = sorted({str(e._linenum) for e in errs})
+    return "fields=%s errs=%s" % (",".join(fl), ",".join(el))
+
+
+def corpus_modules() -> List[Dict[str, Any]]:
+    """deterministic cases run first on every run: the input shape of every finding (open or fixed) and the shape each
+    seeded change needs (seeded/C16*/meta.json)"""
+    import random
+    r = random.Random("C16-corpus")
+    below0, below1, below2, opening = (False, 0, False), (False, 1, False), (False, 2, False), (True, 0, False)
+    plain = {"quote": '"' * 3, "open_ws": "", "sep_style": "", "extra": 0, "close_own": True}
+
+    def para(fmt, *cons_text):
+        return {"lines": list(cons_text), "constructs": [], "kind": "para"}
+    out = []
+
+    def mod(tag, fmt, plan, ptypes=False):
+        m = gen_module(r, fmt, plan, ptypes=ptypes)
+        m["corpus"] = tag
+        out.append(m)
+    for fmt, X, E, U, P in (("e", " L{%s}", " B{oops", "@%s: text", "@param %s: text"), ("r", " `%s`", " *oops", ":%s: text", ":param %s: text")):
+        blocks = lambda: [{"lines": ["Summary." + X % "zq1"], "constructs": [("X", 0, "zq1")], "kind": "para"},
+                          {"lines": ["Second para", "with error" + E], "constructs": [("E", 1, "")], "kind": "para"},
+                          {"lines": [U % "zf2"], "constructs": [("U", 0, "zf2")], "kind": "field"},
+                          {"lines": [P % "zp3"], "constructs": [("P", 0, "zp3")], "kind": "field"}]
+        noerr = lambda: [b for b in blocks() if not any(c[0] == "E" for c in b["constructs"])]
+        # finding 1 (rst markup error +1) and seeded C16-2 (-W with a docstring that cannot be parsed): both W modes are run
+        mod("markup-error", fmt, [("function", below0, 0, {"layout": dict(plain), "blocks": blocks()})])
+        # finding 3 (over-indented leading blank line)
+        mod("overindented-leading-blank", fmt, [("method", below1, 1, {"layout": {**plain, "blank_styles": ["over"]}, "blocks": noerr()})])
+        mod("overindented-leading-blank-tab", fmt, [("function", below2, 0, {"layout": {**plain, "blank_styles": ["", "tab"]}, "blocks": noerr()})])
+        # seeded C16-1 / C16-r2-1: leading blank line carrying the indentation; trailing blanks after the opening quotes
+        mod("leading-blank-with-indentation", fmt, [("function", below1, 0, {"layout": {**plain, "blank_styles": ["ind"]}, "blocks": noerr()}),
+                                                    ("method", below2, 1, {"layout": {**plain, "blank_styles": ["ind", "ind"]}, "blocks": noerr()})])
+        mod("blanks-after-opening-quotes", fmt, [("function", below0, 0, {"layout": {**plain, "open_ws": "  "}, "blocks": noerr()}),
+                                                 ("class", below1, 0, {"layout": {**plain, "open_ws": " ", "blank_styles": [""]}, "blocks": noerr()})])
+        mod("text-on-opening-line", fmt, [("function", opening, 0, {"layout": dict(plain), "blocks": noerr()})])
+        # reviewer report (a): type-field warning with --process-types
+        mod("process-types", fmt, [("function", below0, 0, {"layout": dict(plain), "blocks": [
+            {"lines": ["Summary."], "constructs": [], "kind": "para"},
+            {"lines": [(U % "type a").replace(" text", " (zq9")], "constructs": [("W", 0, ""), ("X", 0, "zq9")], "kind": "field"}]})], ptypes=True)
+    # seeded C16-r2-3 and finding 4 (fixed c88d52b): consolidated fields
+    mod("consolidated-bullet", "r", [("function", below0, 0, {"layout": dict(plain), "blocks": [
+        {"lines": ["Summary."], "constructs": [], "kind": "para"},
+        {"lines": [":Parameters:", "  - `a`: fine", "  - `zp1`: not a parameter", "    continued"], "constructs": [("B", 0, "zp1", 2)], "kind": "consolidated"}]})])
+    mod("consolidated-deflist-classifier", "r", [("method", below0, 1, {"layout": dict(plain), "blocks": [
+        {"lines": ["Summary."], "constructs": [], "kind": "para"},
+        {"lines": ["More."], "constructs": [], "kind": "para"},
+        {"lines": [":Parameters:", "  a : `zt1`", "    fine", "  zp2 : int", "    not a parameter"],
+         "constructs": [("T", 0, "zt1", 1), ("D", 0, "zp2", 3)], "kind": "consolidated"}]})])
+    # finding 2 (google / numpy line past the end)
+    for fmt, lines in (("n", ["Parameters", "----------", "zp1: int", "zp2: int", "zp3: int", "zp4: int"]),
+                       ("g", ["Args:", "    zp1 (int): x", "    zp2 (int): x", "    zp3 (int): x", "    zp4 (int): x"])):
+        mod("converted-past-end", fmt, [("function", below0, 0, {"layout": dict(plain), "blocks": [
+            {"lines": ["Summary."], "constructs": [], "kind": "para"},
+            {"lines": lines, "constructs": [("P", 0, "zp%d" % i) for i in range(1, 5)], "kind": "section"}]})])
+    return out
 
 
 def check_against_ast(ctx: Ctx, mod: Dict[str, Any], src: str, off: int) -> None:
@@ -777,8 +883,9 @@ def expected_shift(doc) -> int:
 def oracle_er(ctx: Ctx, inp, fmt: str, doc, exp, uniq, span) -> None:
     """epytext / reStructuredText: every report names the first line of the block holding the problem
     (a reStructuredText cross-reference may instead name the line of the reference itself)"""
-    byname = {(c, n): (first, own, pc) for c, n, first, own, pc in exp if c != "E"}
+    byname = {(c, n): (first, own, pc) for c, n, first, own, pc in exp if c not in ("E", "W")}
     err_lines = sorted(first for c, n, first, own, pc in exp if c == "E")
+    w_lines = sorted(first for c, n, first, own, pc in exp if c == "W")
     text_start = span[0] + (doc["starts"][0] if doc["starts"] else 0)     # physical line of the first text line
     tag = "rst" if fmt == "r" else "epytext"
     shift = expected_shift(doc)
@@ -795,6 +902,17 @@ def oracle_er(ctx: Ctx, inp, fmt: str, doc, exp, uniq, span) -> None:
             ctx.fail("line:unknown", {**inp, "object": doc["name"]}, f"{where}: report without a line ({kind} {name})")
             continue
         ln = int(line)
+        if kind == "W":
+            if ln in w_lines:
+                continue
+            if not w_lines:
+                ctx.fail("unplanted:W", {**inp, "object": doc["name"], "reported": ln}, f"{where}: type warning on line {ln}, none planted")
+                continue
+            near = max([x for x in w_lines if x <= ln] or [min(w_lines)])
+            sig = "line:overindented-leading-blank" if shift and ln - near == shift + 1 else "line:processtypes-type-warning:%+d" % (ln - near)
+            ctx.fail(sig, {**inp, "object": doc["name"], "reported": ln, "expected": near, "problem": ["W", ""]},
+                     f"{where}: the warning about the type field on line {near} (--process-types) is reported on line {ln}")
+            continue
         if kind == "E":
             if ln in err_lines:
                 continue
@@ -1227,6 +1345,153 @@ def stream_sys_api(ctx: Ctx) -> None:
     ctx.count("sys-api", len(reqs))
 
 
+# --------------------------------------------------------------------------- round 3: in-process streams
+
+NL, CONT, ESC = 1114112, 1114113, 1114114
+
+
+def render_pieces(pieces: List[Any], style: str, ind: int) -> Tuple[str, int]:
+    """source text of `x = 0` + the literal as an expression statement; returns (source, line of the literal).
+    style 'bs': one triple-quoted literal with backslash-newline; 'concat': the literal is closed and re-opened on the
+    next line (implicit concatenation inside parentheses)"""
+    q = '"' * 3
+    body = []
+    for p in pieces:
+        if p == NL:
+            body.append("\n")
+        elif p == CONT:
+            body.append("\\\n" if style == "bs" else q + "\n" + " " * (ind + 1) + q)
+        elif p == ESC:
+            body.append("\\n")
+        else:
+            body.append(p)
+    pre = " " * ind
+    if style == "bs":
+        return "if 1:\n" + pre + "x = 0\n" + pre + q + "".join(body) + q + "\n", 3
+    return "if 1:\n" + pre + "x = 0\n" + pre + "(" + q + "".join(body) + q + ")\n", 3
+
+
+def stream_literal_source(ctx: Ctx) -> None:
+    """string literals as written (continuation lines, \\n escapes, implicit concatenation): value and line mapping
+    against CPython's parser, docstring_lineno against the real extract_docstring_linenum"""
+    from pydoctor import astutils
+    rng = ctx.rng
+    reqs, impls, pay = [], [], []
+    corpus = [["a", CONT, "b", NL, "X"], [NL, " ", " ", "X", ESC, "Y", CONT, NL, "Z"], ["X"], [" ", CONT, NL, " ", "X"],
+              [ESC, ESC, "X", NL, CONT, "Y"]]
+    n = 400 if ctx.quick else 8000
+    for t in range(n):
+        if t < len(corpus):
+            pieces = list(corpus[t])
+        else:
+            pieces = [rng.choice(["a", " ", " ", NL, NL, CONT, ESC, "b"]) for _ in range(rng.randint(0, 12))]
+            for mk in "XYZ"[:rng.randint(1, 3)]:
+                pieces.insert(rng.randint(0, len(pieces)), mk)
+        # a literal may not end in a quote or backslash; pieces here never do. 'concat' needs every part non-problematic.
+        style = "bs" if t % 2 == 0 else "concat"
+        ind = rng.choice([4, 8])
+        src, sl = render_pieces(pieces, style, ind)
+        tree = ast.parse(src)
+        node = [nd.value for nd in ast.walk(tree) if isinstance(nd, ast.Expr) and isinstance(nd.value, ast.Constant) and isinstance(nd.value.value, str)][0]
+        marks, impl_marks = [], []
+        text_before = src.split('"' * 3, 1)[0]
+        for k, p in enumerate(pieces):
+            if p in ("X", "Y", "Z"):
+                marks.append(k)
+                pos = src.index(p, len(text_before))
+                phys = src[:pos].count("\n") + 1
+                impl_marks.append("%d:%d" % (phys, node.value[:node.value.index(p)].count("\n")))
+        reqs.append("lineno src %d p:%s %s" % (sl, ".".join(str(ord(p)) if isinstance(p, str) else str(p) for p in pieces), ",".join(map(str, marks))))
+        impls.append("value=%s dl=%d end=%d marks=%s" % (enc(node.value), astutils.extract_docstring_linenum(node), node.end_lineno, ",".join(impl_marks)))
+        pay.append({"source": src, "pieces": [p if isinstance(p, str) else {NL: "<nl>", CONT: "<cont>", ESC: "<\\n>"}[p] for p in pieces]})
+        if node.lineno != sl:
+            ctx.disagree("literal-source", pay[-1], "lineno %d" % sl, "lineno %d" % node.lineno)
+        ctx.count("literal-source:" + style)
+        if CONT in pieces or ESC in pieces:
+            ctx.count("literal-source:with-continuation-or-escape")
+    ctx.compare("literal-source", reqs, impls, pay)
+
+
+def stream_get_lineno_api(ctx: Ctx) -> None:
+    """epydoc.docutils.get_lineno on hand-built docutils node chains (lines None / 0 / k, rawsources with and without
+    the reference's text, repeated occurrences)"""
+    from docutils import nodes
+    from pydoctor.epydoc.docutils import get_lineno
+    rng = ctx.rng
+    reqs, impls, pay = [], [], []
+
+    def rs(maxlen):
+        return "".join(rng.choice("ab\n\n ") for _ in range(rng.randint(0, maxlen)))
+    n = 400 if ctx.quick else 6000
+    for t in range(n):
+        depth = rng.randint(0, 3)
+        leaf_raw = rng.choice(["", "a", "b", "ab", "a\nb"])
+        leaf_line = rng.choice([None, None, 0, 2, 5])
+        chain = [(rng.choice([None, None, 0, 1, 4, 9]), rng.choice([rs(8), rs(8) + leaf_raw + rs(4), ""])) for _ in range(depth)]
+        leaf = nodes.title_reference(leaf_raw, "t")
+        if leaf_line is not None:
+            leaf.line = leaf_line
+        child = leaf
+        for line, raw in chain:          # chain[0] is the direct parent
+            par = nodes.paragraph(raw, "")
+            if line is not None:
+                par.line = line
+            par.append(child)
+            child = par
+        try:
+            out = str(get_lineno(leaf))
+        except Exception as e:
+            out = type(e).__name__
+        toks = " ".join("%s %s" % ("N" if l is None else l, enc(r)) for l, r in chain)
+        reqs.append("lineno getlineno %s %s %s" % ("N" if leaf_line is None else leaf_line, enc(leaf_raw), toks))
+        impls.append(out)
+        pay.append({"leaf": [leaf_line, leaf_raw], "ancestors": chain})
+        ctx.count("get-lineno-api:depth%d" % depth)
+    ctx.compare("get-lineno-api", reqs, impls, pay)
+
+
+def stream_napoleon_map(ctx: Ctx) -> None:
+    """napoleon's rewriting of a parameter section: line of every `:param` / `:type` in the converted text, and the line
+    the entry is written on, against the model's closed form"""
+    from pydoctor.napoleon.docstring import GoogleDocstring, NumpyDocstring
+    rng = ctx.rng
+    reqs, impls, pay = [], [], []
+    n = 300 if ctx.quick else 5000
+    for t in range(n):
+        numpy = t % 2 == 1
+        pre = ["Summary line."] + ([""] + ["More text %d." % i for i in range(rng.randint(1, 3))] if rng.random() < 0.6 else [])
+        es = [(rng.random() < 0.5, rng.randint(1 if numpy else 0, 2)) for _ in range(rng.randint(1, 5))]
+        lines = pre + [""]
+        hdr = len(lines)
+        inl = []
+        if numpy:
+            lines += ["Parameters", "----------"]
+            for k, (typed, extra) in enumerate(es):
+                inl.append(len(lines))
+                lines.append("p%d%s" % (k, " : int" if typed else ""))
+                lines += ["    desc %d %d" % (k, j) for j in range(extra)]
+        else:
+            lines += ["Args:"]
+            for k, (typed, extra) in enumerate(es):
+                inl.append(len(lines))
+                lines.append("    p%d%s: desc %d" % (k, " (int)" if typed else "", k))
+                lines += ["        cont %d %d" % (k, j) for j in range(extra)]
+        text = "\n".join(lines)
+        out = str((NumpyDocstring if numpy else GoogleDocstring)(text)).split("\n")
+        par = [next((i for i, l in enumerate(out) if l.startswith(":param p%d:" % k)), -1) for k in range(len(es))]
+        typ = [next((i for i, l in enumerate(out) if l.startswith(":type p%d:" % k)), -1) for k, e in enumerate(es) if e[0]]
+        reqs.append("lineno napoleon %s %d %s" % ("n" if numpy else "g", hdr, ",".join(("t" if ty else "u") + str(ex) for ty, ex in es)))
+        impls.append("in=%s param=%s type=%s" % (",".join(map(str, inl)), ",".join(map(str, par)), ",".join(map(str, typ)) or "-"))
+        pay.append({"docstring": text, "converted": out})
+        # lines before the section are copied one for one (what the model assumes of the rest)
+        if out[:hdr] != lines[:hdr]:
+            ctx.disagree("napoleon-map", pay[-1], "prefix copied", "prefix changed")
+        ctx.count("napoleon-map:" + ("numpy" if numpy else "google"))
+        if len(out) > len(lines):
+            ctx.count("napoleon-map:converted-longer-than-written")
+    ctx.compare("napoleon-map", reqs, impls, pay)
+
+
 # --------------------------------------------------------------------------- replay
 
 def replay(ctx: Ctx, obj) -> int:
@@ -1255,7 +1520,7 @@ def replay(ctx: Ctx, obj) -> int:
         return 1 if still else 0
     if "source" in inp:
         fmt = {v: k for k, v in FMTS.items()}[inp.get("docformat", "restructuredtext")]
-        res = run_driver(inp["source"], fmt, bool(inp.get("warnings_as_errors")), [])
+        res = run_driver(inp["source"], fmt, bool(inp.get("warnings_as_errors")), [], inp.get("extra_args"))
         for i, l in enumerate(inp["source"].split("\n"), 1):
             print("%3d| %s" % (i, l))
         print("exit status:", res["rc"])
